@@ -14,7 +14,7 @@
    step of the model.  wf k says that k holds what Go values of these types can hold.
    No axioms. *)
 From Coq Require Import ZArith List.
-From GV Require Import Marshal.Model Marshal.ModelRefactor Marshal.Proofs Marshal.RefactorProofs.
+From GV Require Import Marshal.Model Marshal.ModelRefactor Marshal.Proofs Marshal.RefactorProofs Marshal.BudgetProofs.
 Import ListNotations.
 Open Scope Z_scope.
 
@@ -85,6 +85,14 @@ Theorem C13_load_no_panic :
   end.
 Proof. exact load_no_panic. Qed.
 Print Assumptions C13_load_no_panic.
+
+(* under a budget, on ANY byte string: when UnmarshalConst returns a value, the budget it reports
+   as used is exactly the number of bytes it read after the prefix (memory follows bytes charged) *)
+Theorem C13_unmarshal_used_is_bytes_read :
+  forall lim budget inp k rest b', budget <> 0 -> unmarshal lim budget inp = UOk k rest b' ->
+  budget - b' = zlen inp - 3 - zlen rest.
+Proof. exact unmarshal_used_is_bytes_read. Qed.
+Print Assumptions C13_unmarshal_used_is_bytes_read.
 
 (* the former witnesses are ordinary errors now (replayed on Go from corpus/C13 on every run) *)
 Theorem C13_former_witnesses :
